@@ -262,9 +262,9 @@ func main() {
 		downs = append(downs, x.addConfig(down(c)))
 	}
 
-	nErr := run.Count(800, 12000)
-	nDown := run.Count(120, 1600)
-	nAlert := run.Count(90, 1200)
+	nErr := run.Count(620, 12000)
+	nDown := run.Count(100, 1600)
+	nAlert := run.Count(70, 1200)
 	kinds := append(append([]string{}, rtgen.Kinds...), rtgen.AttackKinds...)
 
 	for i := 0; i < nErr; i++ {
